@@ -423,6 +423,10 @@ func runC18(r *Run) {
 		c18Pair(r, mkList(types.Str, val.Str("1")), mkList(types.Str, val.Str("1 ")), false)
 		c18Pair(r, val.Just(types.Str, val.Str("")), val.Just(types.Str, val.Str(" ")), false)
 		c18Pair(r, mkList(types.Num, n(1), n(2)), mkList(types.Num, n(12)), false)
+		negZero := math.Copysign(0, -1)
+		c18Pair(r, n(0), n(negZero), true)
+		c18Pair(r, mkList(types.Num, n(negZero)), mkList(types.Num, n(0)), true)
+		c18Pair(r, mkMap(types.Num, types.Str, n(negZero), val.Str("a")), mkMap(types.Num, types.Str, n(0), val.Str("a")), true)
 		r.Count("pair:unquoted-rendering-coincides")
 	}
 	c18ForceLang = false
